@@ -9,8 +9,11 @@ Three parts (see DESIGN.md §6 C02):
  (c) END-TO-END oracle: expression ASTs -> Lean `evalExpr` (the specification) versus the AST rendered with a
      LAYOUT into a real model text -> `casbin.Enforcer` -> `enforce` / `enforce_ex` on single- and multi-rule
      policies.  Any difference is a violation of the property (layout dependence is its heart).
-Inputs on which the textual approach is known to be limited (operators or `p.`-like text inside string
-literals) run in a separate stream with its own signature.  Blanks between `eval` and `(` and around its
+String literals (F01b, repaired: every rewriting step skips them): literals whose text contains `&&`, `||`, `!`, `#`,
+`eval(`, `r.x` / `p.x`, dots, blanks, the other kind of quote or an escaped quote are frequent in every stream - char level
+(exhaustive suites over quote / backslash alphabets, literal-rich random text), token level (`lit` items of the `layout`
+op: model = theorem right-hand side, literals preserved) and end to end (matcher, sub-expressions stored in the rule,
+the empty policy).  A violation on a matcher with such a literal carries the signature of F01b.  Blanks between `eval` and `(` and around its
 argument are ordinary layout (F01c, repaired): `eval` `(` name `)` are four tokens with gaps like any others."""
 import hashlib
 import itertools
@@ -31,6 +34,7 @@ ASSUMPTIONS = [
     "function results (g/g2, keyMatch, regexMatch, user functions) enter the specification as oracle tables computed with the real functions (their correctness is C03/C13/C14)",
     "the regular expressions of util.py (\\b, \\d, \\w) are modelled for ASCII model text; non-ASCII model text is outside the modelled domain",
     "layouts: blanks are ' ' and TAB; continuation lines as Config._parse_buffer defines them; a trailing comment starts with '#'",
+    "string literals are '...' and \"...\" with backslash escapes (what util.split_literals, the Lean scanner `pieces` and Python's tokenizer agree on); Python-only literal forms (triple quotes, prefixes) are not part of the Casbin expression language; a literal is not continued across lines of the model text",
     "expressions whose value the language leaves open (ill-typed operands, undefined names) are not judged",
 ]
 TRUSTED_EXTRA = ["the harness's AST renderer (token sequence + gaps -> text); its output is re-rendered by the Lean `render` and compared (op `layout`)"]
@@ -156,6 +160,7 @@ def canon_char(op, ans):
 EVAL_PIECES = ["eval(", "eval", "e", "a", ")", "(", " ", "\t", "_", "&&"]
 CFG_PIECES = ["m", "=", " ", "\\", "\n", "#", ";", "[s]", "a", "]"]
 RULES = ["x y", "(z)"]
+LIT_EVAL_PIECES = ["eval(", "a", ")", '"', "'", "\\", " "]
 
 
 def suites(deep):
@@ -171,6 +176,14 @@ def suites(deep):
         ("replaceeval", EVAL_PIECES, 5 + d, lambda s: (s, RULES)),
         ("tokens", list("a, \t_"), 5 + d, lambda s: ("r2", s)),
         ("config", CFG_PIECES, 5 + d, None),
+        # string literals (F01b repaired): both quote kinds, backslash escapes, unterminated literals, around everything
+        # the steps rewrite
+        ("getexpr", list("a&|!\"'\\"), 6 + d, None),
+        ("escape", ["p.", "p2.", "r.", "a", " ", '"', "'", "\\"], 5 + d, None),
+        ("rmcomment", list("a# \"'\\"), 6 + d, None),
+        ("haseval", LIT_EVAL_PIECES, 5 + d, None),
+        ("evalnames", LIT_EVAL_PIECES, 5 + d, None),
+        ("replaceeval", LIT_EVAL_PIECES, 5 + d, lambda s: (s, RULES)),
     ]
 
 
@@ -203,11 +216,27 @@ ASCII = [chr(i) for i in range(32, 127)] + ["\t"]
 FRAGS = ["&&", "||", "!", "!=", "==", "p.", "r.", "p2.", "r2.", "eval(", ")", "(", "#", " ", "  ", "p", "r", "_", ".", "1", "a", "sub", "\\", "\n", "=", "[", "]", ";", ",", '"', "'"]
 
 
+LIT_BODIES = ["a&&b", "a||b", "!", "x#y", "#", "eval(a)", "eval ( p.r )", "p.txt", "r2.sub", "p2.", " a  b ", "it's", 'say "hi"', "\\\\", "a\\\"b", "a\\'b", "", ")", "(", "&&", "a.b"]
+
+
 def random_text(rng, n):
     out = []
     for _ in range(n):
         k = rng.randint(0, 14)
-        out.append("".join(rng.choice(FRAGS) if rng.random() < 0.8 else rng.choice(ASCII) for _ in range(k)))
+        if rng.random() < 0.5:
+            out.append("".join(rng.choice(FRAGS) if rng.random() < 0.8 else rng.choice(ASCII) for _ in range(k)))
+        else:
+            # matcher-like text with string literals whose bodies contain what the steps rewrite; sometimes a literal
+            # is left open or closed with the other kind of quote
+            parts = []
+            for _ in range(k):
+                if rng.random() < 0.4:
+                    qk = rng.choice("\"'")
+                    end = qk if rng.random() < 0.85 else rng.choice(["", "\"", "'"])
+                    parts.append(qk + rng.choice(LIT_BODIES) + end)
+                else:
+                    parts.append(rng.choice(FRAGS))
+            out.append("".join(parts))
     return out
 
 
@@ -282,8 +311,9 @@ def prec(e):
     return 9
 
 
-def q(s):
-    return '"' + s + '"'
+def q(s, qk='"'):
+    """the literal as it is written: a backslash and the literal's own quote are escaped with a backslash"""
+    return qk + s.replace("\\", "\\\\").replace(qk, "\\" + qk) + qk
 
 
 def fmt_float(num, exp):
@@ -304,7 +334,7 @@ def tokens(e, minp=0):
             return base[:-1] + [(t[0] + "." + e[2], True, True, "w")]
         return base + [("." + e[2], False, True, "o")]
     if k == "str":
-        return [(q(e[1]), False, False, "s")]
+        return [(q(e[1], e[2] if len(e) > 2 else '"'), False, False, "s")]
     if k == "int":
         return [(str(e[1]), True, True, "w")]
     if k == "flt":
@@ -356,7 +386,7 @@ def gaps_for(toks, layout, rng=None):
         if last:
             g = {"comment": "  # the matcher", "double": "  ", "tab": "\t"}.get(layout, "")
             if layout == "random":
-                g = rng.choice(["", " ", "  # c", "\t", " #"])
+                g = rng.choice(["", " ", "  # c", "\t", " #", "  # it's a \"comment", " # 'p.x' && eval(q)"])
         elif layout == "tight":
             g = " " if need else ""
         elif layout in ("single", "comment"):
@@ -419,6 +449,9 @@ def tok_items(toks, gaps):
             add("other", "(", gap=mf.group(2))
             items.extend(tok_items([(mf.group(3), True, True, "w")], [mf.group(4)]))
             add("other", ")", gap=g)
+            continue
+        if kind == "s":
+            items.append("|".join(["lit", enc_str(text[0]), enc_str(text[1:-1]), enc_str(g)]))
             continue
         m = _REF.match(text) if kind == "w" else None
         if m:
@@ -575,8 +608,44 @@ def AND(*xs):
     return e
 
 
-def S(s):
-    return ("str", s)
+def S(s, qk=None):
+    """a string literal; written with double quotes unless its text contains one (or `qk` says otherwise)"""
+    if qk is None:
+        qk = "'" if '"' in s and "'" not in s else '"'
+    return ("str", s) if qk == '"' else ("str", s, qk)
+
+
+# literal texts that the textual pipeline used to rewrite (F01b): operators, comment sign, eval(, reference-like
+# text, dots, the other kind of quote, blanks - inside a literal all of it is just text
+RISKY = ["a&&b", "a||b", "a!b", "p.txt", "r.sub", "x#y", "eval(a)", "a != b", "p2.x", "a.b", "it's", 'say "hi"', " a  b ", "eval(p.sub_rule)",
+         "!", "#", "&&", "||", "r.obj == p.obj", "a # b", "eval ( p.rule2 )", "r2.sub", "p.", "x) || (y", "'", '"', "a&&b||!c#d eval(p.x) r.y",
+         # written with escapes: the quote inside does not close the literal
+         'a"&&"b', "x'||'y", 'q"#"r\'s', "a\\b", 'e"eval(p.sub_rule)"', '"!"', "'p.obj'"]
+RISKY_SET = set(RISKY)
+
+
+def has_risky(e):
+    """does the expression contain one of the RISKY literals"""
+    if isinstance(e, (list, tuple)):
+        if len(e) >= 2 and e[0] == "str" and e[1] in RISKY_SET:
+            return True
+        return any(has_risky(x) for x in e)
+    if isinstance(e, dict):
+        return any(has_risky(x) for x in e.values())
+    return False
+
+
+def risky_strings(e, out):
+    if isinstance(e, (list, tuple)):
+        if len(e) >= 2 and e[0] == "str" and e[1] in RISKY_SET:
+            out.append(e[1])
+        else:
+            for x in e:
+                risky_strings(x, out)
+    elif isinstance(e, dict):
+        for x in e.values():
+            risky_strings(x, out)
+    return out
 
 
 class Shape:
@@ -707,8 +776,10 @@ class Gen:
             return R(self.p + "." + rng.choice(fs))
         if c < 0.95 or True:
             pool = SUBS + OBJS + ACTS + ["", "admin"]
-            if self.risky:
-                pool = ["a&&b", "a||b", "a!b", "p.txt", "r.sub", "x#y", "eval(a)", "a != b", "p2.x"]
+            if self.risky or rng.random() < 0.4:
+                # literals whose text looks like operators / comments / eval( / references: frequent in every stream
+                t = rng.choice(RISKY)
+                return S(t, rng.choice("\"'") if ('"' not in t and "'" not in t) or rng.random() < 0.5 else None)
             return S(rng.choice(pool))
 
     def num_atom(self, depth):
@@ -884,10 +955,16 @@ def expected_multi(shape, verdicts, rules):
 SIG_F01B = "F01b:text-inside-string-literal-rewritten"
 
 
-def sig_of(stream, shape, layout, kind):
-    if stream == "string-literal":
+def sig_of(stream, shape, layout, kind, risky=False):
+    if stream == "string-literal" or risky:
         return SIG_F01B
     return f"{stream}:{kind}"
+
+
+def empty_probe(shape, a):
+    """matchers with risky literal text are also run against the empty policy (there `has_eval` alone decides between an
+    evaluation with empty rule values and the "rule must exist when using eval()" error)"""
+    return shape.name != "eval" and not shape.effect.startswith("!some") and has_risky(a["ast"])
 
 
 def run_item(item):
@@ -911,6 +988,10 @@ def run_item(item):
                 ast = subst_eval(a["ast"], a["rule_asts"][ri]) if a.get("rule_asts") else a["ast"]
                 lines.append("\t".join(["eval", " ".join(e_tokens(ast)), env_tokens(shape, req, rule)]))
                 index.append((ai, qi, ri))
+            if empty_probe(shape, a):
+                # the empty policy: the matcher is evaluated once, with every p field bound to ""
+                lines.append("\t".join(["eval", " ".join(e_tokens(a["ast"])), env_tokens(shape, req, [""] * len(shape.pdef))]))
+                index.append((ai, qi, "empty"))
     answers = run_driver("matcher", lines)
     for x in answers[1:nfn]:
         if x != "ok":
@@ -926,6 +1007,9 @@ def run_item(item):
     for ai, a in enumerate(item["asts"]):
         toks = tokens(a["ast"])
         arules = a["rules"]
+        # operator / comment / eval( / reference-like text inside a string literal of the matcher or of a stored sub-expression
+        risky_a = has_risky(a["ast"]) or has_risky(a.get("rule_asts"))
+        count("literal:" + ("risky-text-inside" if risky_a else ("plain" if any(t[3] == "s" for t in toks) else "none")))
         for layout in item["layouts"]:
             gaps = gaps_for(toks, layout, rng)
             mtext = render(toks, gaps)
@@ -943,7 +1027,7 @@ def run_item(item):
                 definite = any(not spec[(ai, qi, ri)].startswith("?") for qi in range(len(reqs)) for ri in range(len(arules)))
                 out["evals"] += 1
                 if definite:
-                    out["viol"].append(dict(case_base, signature=sig_of(stream, shape, layout, "load:" + type(ex).__name__), what=f"model text with matcher {mtext!r} fails to load: {type(ex).__name__}: {str(ex)[:100]}", policy=arules, request=None, expected="loads", observed=f"{type(ex).__name__}: {str(ex)[:120]}"))
+                    out["viol"].append(dict(case_base, signature=sig_of(stream, shape, layout, "load:" + type(ex).__name__, risky_a), what=f"model text with matcher {mtext!r} fails to load: {type(ex).__name__}: {str(ex)[:100]}", policy=arules, request=None, expected="loads", observed=f"{type(ex).__name__}: {str(ex)[:120]}"))
                 continue
             pol = e.model.model["p"]["p" + shape.suffix]
             # -- pipeline tie: the text handed to ast.parse against Matcher.pipeline
@@ -970,8 +1054,19 @@ def run_item(item):
                         out["nontrivial"].add(hash((shape.name, mtext, repr(req), tuple(rule))))
                     if got != exp:
                         kind = "exception:" + got[1].split(":")[0] if got[0] == "exc" else ("wrong-decision" if got[0] == "ok" and exp[0] == "ok" else "result-typing")
-                        out["viol"].append(dict(case_base, signature=sig_of(stream, shape, layout, kind), what=f"matcher {mtext!r} (shape {shape.name}, layout {layout}) on request {req!r} and the single rule {rule!r}: enforce gives {got[:2]}, the expression evaluates to {v}",
+                        out["viol"].append(dict(case_base, signature=sig_of(stream, shape, layout, kind, risky_a), what=f"matcher {mtext!r} (shape {shape.name}, layout {layout}) on request {req!r} and the single rule {rule!r}: enforce gives {got[:2]}, the expression evaluates to {v}",
                                                 policy=[list(rule)], request=[to_json(x) for x in req], expected=list(exp[:2]), observed=list(got[:2])))
+                if (ai, qi, "empty") in spec and not spec[(ai, qi, "empty")].startswith("?") and spec[(ai, qi, "empty")] in ("T", "F"):
+                    v = spec[(ai, qi, "empty")]
+                    pol.policy = []
+                    got = impl_enforce(e, shape, req)
+                    out["evals"] += 1
+                    count("empty-policy")
+                    exp = ("ok", v == "T", None)
+                    if got != exp:
+                        kind = "exception:" + got[1].split(":")[0] if got[0] == "exc" else "wrong-decision"
+                        out["viol"].append(dict(case_base, signature=sig_of(stream, shape, layout, "empty-" + kind, risky_a), what=f"matcher {mtext!r} (shape {shape.name}, layout {layout}) on request {req!r} and the EMPTY policy: enforce gives {got[:2]}, the expression with empty rule values evaluates to {v}",
+                                                policy=[], request=[to_json(x) for x in req], expected=list(exp[:2]), observed=list(got[:2])))
                 # multi-rule policy, with explanation
                 if len(arules) > 1:
                     pol.policy = [list(r) for r in arules]
@@ -987,7 +1082,7 @@ def run_item(item):
                         expn = exp
                     if got != expn:
                         kind = "exception:" + got[1].split(":")[0] if got[0] == "exc" else ("wrong-decision" if got[0] == "ok" and exp[0] == "ok" else "result-typing")
-                        out["viol"].append(dict(case_base, signature=sig_of(stream, shape, layout, "multi-" + kind), what=f"matcher {mtext!r} (shape {shape.name}, layout {layout}) on request {req!r} and policy {arules!r}: enforce_ex gives {got}, rule-by-rule evaluation gives {expn}",
+                        out["viol"].append(dict(case_base, signature=sig_of(stream, shape, layout, "multi-" + kind, risky_a), what=f"matcher {mtext!r} (shape {shape.name}, layout {layout}) on request {req!r} and policy {arules!r}: enforce_ex gives {got}, rule-by-rule evaluation gives {expn}",
                                                 policy=[list(r) for r in arules], request=[to_json(x) for x in req], expected=list(expn), observed=list(got), multi=True))
             if tie_lines:
                 for (cap, rule), ans in zip(tie_impl, run_driver("matcher", tie_lines)):
@@ -1003,15 +1098,15 @@ def run_item(item):
         for src, ans in zip(lay_src, run_driver("matcher", lay_lines)):
             f = dict(x.split("=", 1) for x in ans.split(" "))
             out["evals"] += 1
-            count("layout-op:" + ("hyp" if f.get("hyp") == "T" else "outside-hyp"))
+            count("layout-op:" + ("hyp" if f.get("hyp") == "T" else "outside-hyp") + ("+literals" if f.get("nlit", "0") != "0" else ""))
             if dec_str(f["src"]) != src:
                 out["dis"].append({"what": "Lean `render` vs the harness renderer", "harness": src, "lean": dec_str(f["src"])})
                 continue
             impl = impl_getexpr(util.escape_assertion(src))
             if enc_str(impl) != f["model"]:
                 out["dis"].append({"what": "_get_expression(escape_assertion(text)) vs Model", "text": src, "impl": impl, "model": dec_str(f["model"])})
-            if f["hyp"] == "T" and f["model"] != f["spec"]:
-                out["mvs"].append({"text": src, "model": dec_str(f["model"]), "spec": dec_str(f["spec"])})
+            if f["hyp"] == "T" and (f["model"] != f["spec"] or f.get("lits") != "T"):
+                out["mvs"].append({"text": src, "model": dec_str(f["model"]), "spec": dec_str(f["spec"]), "literals_preserved": f.get("lits")})
     return out
 
 
@@ -1055,7 +1150,14 @@ def build_items(ctx, deep):
             rules, groups, reqs = gen_universe(shape, r2)
             g = Gen(shape, r2)
             alist = [shape.base] + [g.top(r2.choice([1, 2, 2, 3])) for _ in range(11)]
-            items.append(dict(shape=name, rules=rules, groups=groups, reqs=reqs[:4], asts=[make_rules_for_ast(shape, a, rules, r2, LAYOUTS) for a in alist], layouts=r2.sample(LAYOUTS, 3) + ["random"], seed=r2.getrandbits(32), stream="main"))
+            # requests that carry the text of a risky literal of these matchers (so that comparisons with it are true sometimes)
+            reqs = reqs[:4]
+            for t in risky_strings(alist, [])[:2]:
+                rq = list(reqs[r2.randrange(len(reqs))])
+                fi = r2.choice([0, len(rq) - 1]) if not is_abac(shape) else len(rq) - 1
+                rq[fi] = t
+                reqs.append(rq)
+            items.append(dict(shape=name, rules=rules, groups=groups, reqs=reqs, asts=[make_rules_for_ast(shape, a, rules, r2, LAYOUTS) for a in alist], layouts=r2.sample(LAYOUTS, 3) + ["random"], seed=r2.getrandbits(32), stream="main"))
     # (3) outside the hypotheses of the layout theorems: risky string literals (F01b)
     for chunk in range(6 if deep else 2):
         r2 = random.Random(rng.getrandbits(32))
@@ -1100,6 +1202,30 @@ def build_items(ctx, deep):
             alist.append(B("or", B("eq", R("r.sub"), S(lit)), B("and", B("eq", R("r.obj"), S(other)), B("ne", R("p.sub"), S(lit)))))
             alist.append(B("in", R("r.sub"), ("tuple", [S(lit), S("alice")])))
         items.append(dict(shape="acl", rules=rules, groups={}, reqs=reqs, asts=[{"ast": a, "rules": rules} for a in alist], layouts=fixed if deep else ["tight", "single", "double", "cont-before", "comment", "tab"], seed=r2.getrandbits(32), stream="main"))
+    # (7) string literals inside the sub-expression STORED IN THE RULE (escape_assertion of the rule text, splicing by
+    # replace_eval, operator rewriting of the spliced text), and literals with eval(...) text next to real eval() calls
+    shape = SHAPES["eval"]
+    for chunk in range(6 if deep else 2):
+        r2 = random.Random(rng.getrandbits(32))
+        rules, groups, reqs = gen_universe(shape, r2)
+        reqs = reqs[:3]
+        lits = r2.sample(RISKY, 4)
+        out_rules, rule_asts = [], []
+        for i, rule in enumerate(rules):
+            a, b = S(lits[i % 4], r2.choice("\"'") if r2.random() < 0.5 else None), S(lits[(i + 1) % 4])
+            sub = B(r2.choice(["or", "and"]), B("eq", ("attr", R("r.sub"), "name"), a), B("ne", R("r.act"), b))
+            sub2 = B("or", B("eq", R("r.act"), b), B("eq", ("attr", R("r.obj"), "owner"), a))
+            rule_asts.append({"p.sub_rule": sub, "p.rule2": sub2})
+            out_rules.append([render_inline(tokens(sub), r2.choice(["single", "tight", "double"]), r2)] + list(rule[1:3]) + [render_inline(tokens(sub2), r2.choice(["single", "tight"]), r2)])
+        for t in lits[:3]:
+            rq = list(reqs[r2.randrange(len(reqs))])
+            rq[0] = Obj(dict(rq[0].__dict__, name=t))
+            rq[2] = r2.choice([t, rq[2]])
+            reqs.append(rq)
+        ev, ev2 = ("eval", "p.sub_rule"), ("eval", "p.rule2")
+        name_ok = B("eq", ("attr", R("r.obj"), "name"), R("p.obj"))
+        alist = [ev, B("or", ev, ev2), AND(ev, B("ne", R("r.act"), S("eval(p.rule2)"))), B("or", B("eq", R("r.act"), S("eval(p.sub_rule)", "'")), AND(name_ok, ev2)), B("and", ("not", ev), B("ne", S(lits[0]), S(lits[1])))]
+        items.append(dict(shape="eval", rules=rules, groups=groups, reqs=reqs, asts=[{"ast": a, "rules": out_rules, "rule_asts": rule_asts} for a in alist], layouts=["tight", "single", "comment"], seed=r2.getrandbits(32), stream="string-literal"))
     return items
 
 
